@@ -46,29 +46,37 @@ GReg(i) == "g" \o ToString(i)
 UReg(name) == "u:" \o name
 
 TInit ==
-    /\ l = 1 /\ keys = <<>> /\ emitZero = FALSE /\ classes = {}
+    /\ l = 1 /\ keys = <<>> /\ emitZero = FALSE /\ classes = <<>>
     /\ OInit({}, {}, {}, <<>>)
     /\ TLCSet(1, 1) /\ TLCSet(2, {})
 
 TReset ==
     /\ Ev("Reset") /\ Adv
-    /\ keys' = Rec[l].keys /\ emitZero' = Rec[l].emit_zero /\ classes' = Range(Rec[l].classes)
+    /\ keys' = Rec[l].keys /\ emitZero' = Rec[l].emit_zero /\ classes' = Rec[l].classes
     /\ LET ks == Rec[l].keys
            gregs == {GReg(i) : i \in KeysOfKind(ks, "g")}
            uregs == {UReg(ks[i].name) : i \in DOMAIN ks}
-       IN OReset(KeysOfKind(ks, "c"), KeysOfKind(ks, "h") \X Range(Rec[l].classes), gregs \cup uregs,
+       IN OReset(KeysOfKind(ks, "c"), KeysOfKind(ks, "h") \X DOMAIN Rec[l].classes, gregs \cup uregs,
                  [r \in gregs \cup uregs |-> IF r \in gregs THEN 0 ELSE "None"])
 
-\* the value class of a histogram value: the recorded value it is within 1/16 of (0 = none).
-\* The harness records only values of `classes`, which are far enough apart for this to be unique.
+\* Value classes of histogram samples.  classes[i] = <<c, u>>: the recorded value is c units of u
+\* (u = 1, or 1024 for values that do not fit TLC's 32-bit integers; values above u32::MAX are
+\* documented to be capped to u32::MAX, the last class).  The harness records only these values
+\* (or value + 1), which are far enough apart for a reported bucket to belong to one class only.
+\* A reported bucket <<lo, hi, lok, hik, n>> carries floor / ceiling of total / occurrences in units
+\* of 1 (-1: too large) and of 1024; it belongs to class i if that mean is within 1/16 of the value.
 Abs(x) == IF x < 0 THEN -x ELSE x
-ClassOf(m) == IF \E c \in classes : Abs(m - c) * 16 <= c
-              THEN CHOOSE c \in classes : Abs(m - c) * 16 <= c ELSE -1
+Near(m, c) == m >= 0 /\ Abs(m - c) <= c \div 16
+InClass(p, i) == LET c == classes[i][1] IN
+                 IF classes[i][2] = 1 THEN Near(p[1], c) /\ Near(p[2], c)
+                 ELSE Near(p[3], c) /\ Near(p[4], c)
+ClassOf(p) == IF \E i \in DOMAIN classes : InClass(p, i)
+              THEN CHOOSE i \in DOMAIN classes : InClass(p, i) ELSE -1
 
 TIncStart == Ev("IncStart") /\ Adv /\ OIncStart(Rec[l].k, Rec[l].n) /\ UT
 TIncEnd   == Ev("IncEnd") /\ Adv /\ OIncEnd(Rec[l].k, Rec[l].n) /\ UT
-TRecStart == Ev("RecStart") /\ Adv /\ ORecStart(Rec[l].k, ClassOf(Rec[l].v), Rec[l].n) /\ UT
-TRecEnd   == Ev("RecEnd") /\ Adv /\ ORecEnd(Rec[l].k, ClassOf(Rec[l].v), Rec[l].n) /\ UT
+TRecStart == Ev("RecStart") /\ Adv /\ ORecStart(Rec[l].k, Rec[l].c, Rec[l].n) /\ UT
+TRecEnd   == Ev("RecEnd") /\ Adv /\ ORecEnd(Rec[l].k, Rec[l].c, Rec[l].n) /\ UT
 TSetStart == Ev("SetStart") /\ Adv /\ OWriteStart(GReg(Rec[l].k), Rec[l].v) /\ UT
 TSetEnd   == Ev("SetEnd") /\ Adv /\ OWriteEnd(GReg(Rec[l].k), Rec[l].v) /\ UT
 TDescStart == Ev("DescStart") /\ Adv /\ OWriteStart(UReg(Rec[l].name), UnitName[Rec[l].unit]) /\ UT
@@ -89,19 +97,17 @@ Match(it) == {i \in DOMAIN keys : keys[i].kind = it.kind /\ keys[i].name = it.na
 \* (TLCEval: evaluate once, eagerly - TLC would otherwise re-evaluate the body at every application)
 KeyIdx(items) == TLCEval([j \in DOMAIN items |-> IF Match(items[j]) = {} THEN 0 ELSE CHOOSE i \in Match(items[j]) : TRUE])
 
-\* one observation of a histogram item is <<total, occurrences>>; its value is total / occurrences
-ObsVal(p) == IF p[2] = 0 THEN 0 ELSE p[1] \div p[2]
-\* class of every observation of every item (-1 = none, -2 = not a whole-valued total)
+\* class of every reported bucket of every item (0: no occurrences, -1: none - the mean of the bucket
+\* is not within the bucket error of any recorded value)
 ObsClasses(items) == TLCEval([j \in DOMAIN items |-> TLCEval([q \in DOMAIN items[j].obs |->
-                        LET p == items[j].obs[q] IN
-                        IF p[2] = 0 THEN 0 ELSE IF p[1] # ObsVal(p) * p[2] THEN -2 ELSE ClassOf(ObsVal(p))])])
+                        LET p == items[j].obs[q] IN IF p[5] = 0 THEN 0 ELSE ClassOf(p)])])
 
 Dc(items, idx) == TLCEval([i \in DOMAIN cC |-> Sum([j \in DOMAIN items |-> IF idx[j] = i THEN items[j].v ELSE 0])])
 Dh(items, idx, cls) ==
     TLCEval([k \in DOMAIN hC |->
         Sum([j \in DOMAIN items |->
                 IF idx[j] = k[1]
-                THEN Sum([q \in DOMAIN items[j].obs |-> IF cls[j][q] = k[2] THEN items[j].obs[q][2] ELSE 0])
+                THEN Sum([q \in DOMAIN items[j].obs |-> IF cls[j][q] = k[2] THEN items[j].obs[q][5] ELSE 0])
                 ELSE 0])])
 Dg(items, idx) == {<<GReg(idx[j]), items[j].v>> : j \in {jj \in DOMAIN items : idx[jj] # 0 /\ items[jj].kind = "g"}}
 Du(items) == {<<UReg(items[j].name), items[j].unit>> : j \in DOMAIN items}
@@ -113,7 +119,7 @@ Rules(items, idx, cls, dc, dh, dg) ==
      counters   |-> CountersOK(dc),
      histograms |-> HistsOK(dh),
      histvalues |-> \A j \in DOMAIN items : items[j].kind = "h" =>
-                        \A q \in DOMAIN items[j].obs : items[j].obs[q][2] = 0 \/ cls[j][q] >= 0,
+                        \A q \in DOMAIN items[j].obs : cls[j][q] >= 0,
      gauges     |-> RegsOK(dg),
      gaugeshown |-> RegsPresent(dg, {GReg(i) : i \in KeysOfKind(keys, "g")}),
      zerocounters |-> emitZero => \A i \in DOMAIN cC : cLo[i] > 0 => \E j \in DOMAIN items : idx[j] = i]
